@@ -206,6 +206,8 @@ class Binder:
         self.v, self.lo, self.hi = v, lo, hi
 
     def range_cond(self):
+        if self.lo is None or self.hi is None:
+            return z3.BoolVal(True)          # unbounded summation variable: its range is given by guard conjuncts
         return z3.And(self.v >= _lift(self.lo), self.v < _lift(self.hi))
 
 
@@ -1526,6 +1528,42 @@ def _np_shape(a):
     return a.shape
 
 
+def _scalar(x):
+    """numpy scalar functions applied to a value element"""
+    if isinstance(x, LF):
+        v = x.value()
+        return Sym(v.re) if v.is_real() else v
+    if isinstance(x, C):
+        return Sym(x.re) if x.is_real() else x
+    return x
+
+
+def _np_round(x):
+    """round half to even (numpy / Python 3): |x - r| <= 1/2, and r is even at a tie"""
+    if not core.is_sym(x):
+        return round(x)
+    t = core._to_real(_lift(x))
+    r = core._witness("round", True, lambda v: z3.And(z3.ToReal(v) - z3.RealVal(1) / 2 <= t, t <= z3.ToReal(v) + z3.RealVal(1) / 2,
+                                                     z3.Implies(z3.Or(t == z3.ToReal(v) - z3.RealVal(1) / 2, t == z3.ToReal(v) + z3.RealVal(1) / 2), v % 2 == 0)))
+    return Sym(r)
+
+
+def _np_array(a, dtype=None):
+    if isinstance(a, SArr):
+        return a.copy()
+    if isinstance(a, (list, tuple)) and not any(isinstance(x, (list, tuple, SArr)) for x in a):
+        vals = [LF.of(x) for x in a]
+        n = len(vals)
+
+        def el(k):
+            r = vals[-1]
+            for j in range(n - 2, -1, -1):
+                r = LF._ite(SymBool(k[0] == j), vals[j], r)
+            return r
+        return SArr((n,), el, as_dtype(dtype) if dtype is not None else FDT)
+    raise Unsupported("np.array of %r" % (type(a),))
+
+
 def _np_asarray(a, dtype=None):
     if isinstance(a, SArr):
         return a
@@ -1633,10 +1671,13 @@ class _Numpy(_NS):
     matmul = staticmethod(matmul)
     expand_dims = staticmethod(_np_expand_dims)
     shape = staticmethod(_np_shape)
-    ceil = staticmethod(core.sym_ceil)
-    floor = staticmethod(core.sym_floor)
+    ceil = staticmethod(lambda x: core.sym_ceil(_scalar(x)))
+    floor = staticmethod(lambda x: core.sym_floor(_scalar(x)))
+    round = staticmethod(lambda x, decimals=0: _np_round(_scalar(x)))
+    around = staticmethod(lambda x, decimals=0: _np_round(_scalar(x)))
     linspace = staticmethod(_np_linspace)
     asarray = staticmethod(_np_asarray)
+    array = staticmethod(_np_array)
     clip = staticmethod(_np_clip)
     squeeze = staticmethod(_np_squeeze)
     max = staticmethod(_np_max)
@@ -1659,7 +1700,7 @@ NP = _Numpy()
 
 def builtins_ns():
     """names that shadow builtins inside the compiled repo code"""
-    return dict(max=core.sym_max, min=core.sym_min, all=core.sym_all, any=core.sym_any, sum=_builtin_sum,
+    return dict(max=core.sym_max, min=core.sym_min, all=core.sym_all, any=core.sym_any, sum=_builtin_sum, round=lambda x, n=None: _np_round(_scalar(x)),
                 abs=core.sym_abs, int=_int, range=sym_range, len=_len, isinstance=_isinstance, float=_float,
                 __pyvc_iter=pyvc_iter, __pyvc_and=pyvc_and, __pyvc_or=pyvc_or, __pyvc_not=pyvc_not, __pyvc_augstore=pyvc_augstore, __pyvc_cond=pyvc_cond)
 
@@ -1807,7 +1848,7 @@ def lf_equal_goals(a, b, tag="t"):
 
 def _unused(bnd, term, eqs):
     """the bound variable occurs nowhere but in its own range condition"""
-    if bnd.kind != "range":
+    if bnd.kind != "range" or bnd.lo is None or bnd.hi is None:
         return False
     v = bnd.v
     rc = bnd.range_cond()
@@ -1837,9 +1878,7 @@ def _unused(bnd, term, eqs):
 def _rotation_rule(bnd, binders, eqs, ap):
     """v in [0, d),  r := (v + c) mod d,  r == e   <=>   v == (e - c) mod d  and  0 <= e < d
     (inverse of a cyclic rotation: numpy roll / fftshift / ifftshift index maps)"""
-    if bnd.kind != "range" or not z3.is_true(z3.simplify(ap(_lift(bnd.lo)) == 0)):
-        return None, None
-    if bnd.hi is None:
+    if bnd.kind != "range" or bnd.hi is None or bnd.lo is None or not z3.is_true(z3.simplify(ap(_lift(bnd.lo)) == 0)):
         return None, None
     d = z3.simplify(ap(_lift(bnd.hi)))
     for D in binders:
@@ -1913,7 +1952,7 @@ def partial_eliminate(term, eqs):
             sol, extra_g = _rotation_rule(bnd, term.binders, eqs, ap)
             if sol is not None:
                 rot_guards.append(extra_g)
-        if sol is None:
+        if sol is None and bnd.lo is not None and bnd.hi is not None:
             lo_, hi_ = ap(_lift(bnd.lo)), ap(_lift(bnd.hi))
             if _provable(hi_ == lo_ + 1):
                 sol = z3.simplify(lo_)        # singleton range on this path
@@ -1925,7 +1964,7 @@ def partial_eliminate(term, eqs):
             continue
         if sol is None:
             remaining.append(bnd.v)
-            sigs[bnd.v.get_id()] = "%s..%s" % (z3.simplify(ap(_lift(bnd.lo))), z3.simplify(ap(_lift(bnd.hi))))
+            sigs[bnd.v.get_id()] = "%s..%s" % (z3.simplify(ap(_lift(bnd.lo))) if bnd.lo is not None else None, z3.simplify(ap(_lift(bnd.hi))) if bnd.hi is not None else None)
         else:
             sub.append((bnd.v, sol))
     dr = [b.range_cond() for b in dropped]
@@ -2107,7 +2146,9 @@ def _scalar_index(arr, idx):
     for i, n in zip(idx, arr.shape):
         side_obligation("index-in-bounds", z3.And(_lift(i) >= -_lift(n), _lift(i) < _lift(n)))
         t = _lift(i)
-        if z3.is_true(z3.simplify(t >= 0)) or _provable(t >= 0):
+        if isinstance(i, int) and i < 0:
+            out.append(z3.simplify(t + _lift(n)))
+        elif z3.is_true(z3.simplify(t >= 0)) or _provable(t >= 0):
             out.append(t)
         else:
             out.append(z3.If(t < 0, t + _lift(n), t))
